@@ -82,7 +82,7 @@ ZOO = [
     _c('age-mixing-pools', {'network', 'pools'}, dt=0.5, dur=5, diseases=[dict(SIS, beta=0.2)], networks=[dict(type='agepools', cut=15, beta=0.3)],
        demographics=[dict(type='deaths', death_rate=30)]),
     # scaling, user-supplied objects
-    _c('pop-scale-fraction', {'scale'}, pop_scale=2.5, diseases=[SIR], networks=[RND], demographics=[dict(type='births', birth_rate=30), dict(type='deaths', death_rate=30)]),
+    _c('pop-scale-fraction', {'scale', 'births', 'deaths', 'global-rng'}, pop_scale=2.5, diseases=[SIR], networks=[RND], demographics=[dict(type='births', birth_rate=30), dict(type='deaths', death_rate=30)]),
     _c('total-pop-odd', {'scale'}, total_pop=1234, diseases=[SIS], networks=[RND], demographics=[dict(type='deaths', death_rate=30)]),
     _c('own-people', {'user-objects', 'global-rng'}, own_people=True, diseases=[SIS], networks=[RND], demographics=[dict(type='births', birth_rate=30)]),
     _c('user-dist-weibull', {'user-objects'}, diseases=[dict(SIR0, dur_inf=dict(dist='weibull', pars=dict(c=2.0, scale=6.0), preview=3))], networks=[RND]),
@@ -100,6 +100,17 @@ ZOO = [
     _c('ebola', {'disease'}, unit='day', dt=1, start='2020-01-01', dur=25, diseases=[dict(type='ebola', beta=0.5, init_prev=0.1)], networks=[RND]),
     _c('measles', {'disease'}, unit='day', dt=1, start='2020-01-01', dur=25, diseases=[dict(type='measles', beta=0.5, init_prev=0.1)], networks=[RND]),
 ]
+
+
+def _complete_tags():
+    """ `global-rng` for every entry with a module that reads the process-global NumPy generator (C01 findings) """
+    for name, tg, cfg in ZOO:
+        if any(d['type'] == 'births' for d in cfg.get('demographics', [])) or any(d['type'] == 'ncd' for d in cfg.get('diseases', [])) \
+           or any(n['type'] == 'random' and n.get('n_contacts', 4) % 2 for n in cfg.get('networks', [])):
+            tg.add('global-rng')
+
+
+_complete_tags()
 
 
 def configs(tags=None, exclude=None, names=None):
